@@ -97,8 +97,8 @@ Print Assumptions C10_unresolved_target_rejected_partial.
     semantics accepts (every relation exists; every column reference the mode
     looks at resolves to exactly one column).
     The statements covered ("simple SELECT"): SELECT <targets> FROM <base
-    tables, each with or without alias> [WHERE / GROUP BY / HAVING / ORDER BY]
-    with no WITH clause, no join, no sub-select; every target a star (bare or qualified by a
+    tables, each with or without alias, separated by commas or combined by JOIN> [WHERE / GROUP BY / HAVING / ORDER BY]
+    with no WITH clause and no sub-select; every target a star (bare or qualified by a
     relation name), a column reference (c or t.c, with or without AS) or an expression
     that is not a column reference, CASE, COALESCE, sub-select or cast
     ([target_ok]).  [strict] / [deep] select how much the reference semantics
@@ -109,11 +109,11 @@ Print Assumptions C10_unresolved_target_rejected_partial.
     theorem then needs result expressions without inner references -, non-deep =
     only targets that ARE references.  The hypotheses on [from_items],
     [level_refs], [level_subselects] state these shape facts about the AST. *)
-Theorem C10_simple_select_decision_partial : forall (e : env) (strict deep : bool) (stmt : node) (targets rvs : list node),
+Theorem C10_simple_select_decision_partial : forall (e : env) (strict deep : bool) (stmt : node) (targets rvs fitems : list node) (leavess : list (list node)) (f : nat),
   kind_of stmt = "SelectStmt" -> kid "WithClause" stmt = Nil ->
   kid "TargetList" stmt = NList targets -> targets <> [] ->
-  kid "FromClause" stmt = NList rvs -> from_items (kid "FromClause" stmt) = rvs ->
-  Forall (fun rv => kind_of rv = "RangeVar") rvs ->
+  kid "FromClause" stmt = NList fitems -> Forall2 (join_tree (S f)) fitems leavess -> rvs = List.concat leavess ->
+  from_items (kid "FromClause" stmt) = rvs ->
   (if strict then level_refs (NList [kid "FromClause" stmt; kid "WhereClause" stmt; kid "GroupClause" stmt;
                                      kid "HavingClause" stmt; kid "SortClause" stmt])
    else paired_refs (NList [kid "FromClause" stmt; kid "WhereClause" stmt; kid "GroupClause" stmt;
@@ -124,7 +124,7 @@ Theorem C10_simple_select_decision_partial : forall (e : env) (strict deep : boo
   NoDup (map visible_name rvs) ->
   (forall sc, spec_scope (env_cat e) rvs = POk sc ->
      Forall (fun it => NoDup (map sc_name (si_cols it))) sc /\ Forall (target_ok sc) targets) ->
-  forall f g,
+  forall g,
   (exists row, describe (env_cat e) strict deep (S (S f)) [] [] stmt = POk row)
   <-> (exists cols, output_columns (S g) e [] stmt = Ok cols).
 Proof. exact simple_select_decision. Qed.
